@@ -18,9 +18,12 @@ Inductive hop :=
 | ORecvPrune (p : peer) (prs : list (topic * option Z))
 | OHeartbeat (obs : list (topic * list hev)) (fobs : list (topic * list peer))
 | OAdvance (d : Z)
-| OFanoutPub (t : topic) (chosen : list peer).
+| OFanoutPub (t : topic) (chosen : list peer)
+| ODirect (p : peer) (on : bool).         (* the peer becomes / stops being a direct peer (the harness only marks peers that are in no mesh) *)
 
-Record rstep := { st_scores : list (peer * Z); st_op : hop; st_ctl : list ctl; st_snap : snapshot; st_pen : nat }.
+Record rstep := { st_scores : list (peer * Z); st_op : hop; st_ctl : list ctl (* GRAFT / PRUNE the step produced: queued for the wire, or dropped because the queue was full *);
+                  st_retried : list ctl (* GRAFT / PRUNE that had been dropped earlier and went out (or were dropped again) in this step *);
+                  st_snap : snapshot; st_pen : nat }.
 Record rcase := { rc_params : params; rc_steps : list rstep }.
 
 Definition to_rop (P : params) (sc : list (peer * Z)) (s : rstate) (h : hop) : option rop :=
@@ -43,6 +46,8 @@ Definition to_rop (P : params) (sc : list (peer * Z)) (s : rstate) (h : hop) : o
   | OHeartbeat o f => Some (Router.OHeartbeat o f)
   | OAdvance d => Some (Router.OAdvance d)
   | OFanoutPub t ch => Some (Router.OFanoutPub t ch)
+  | ODirect p true => Some (Router.OAddDirect p)
+  | ODirect p false => Some (Router.ORemoveDirect p)
   end.
 
 Definition oz_eqb (a b : option Z) : bool :=
@@ -72,7 +77,10 @@ Definition bomap_eqb (a b : list (topic * list (peer * Z))) : bool :=
 Record mst := {
   m_now : Z;
   m_deadline : list ((topic * peer) * Z);   (* latest deadline we know to be in force for (t,p): from PRUNEs we sent / received, Leave *)
-  m_joined : list topic
+  m_joined : list topic;
+  m_conn : list peer;      (* peers with an outbound stream, from the operations themselves *)
+  m_px : list peer;        (* connected peers that speak v1.1 or later *)
+  m_direct : list peer     (* direct peers, from the operations themselves *)
 }.
 
 (* C08: a GRAFT for (t,p) must not leave before every deadline established for (t,p).  Deadlines
@@ -92,7 +100,7 @@ Definition mon_step (P : params) (m : mst) (st : rstep) : option nat * mst :=
   (* GRAFTs sent in this step *)
   let early := existsb (fun c => match c with
                                  | CGraft p t => match dl_get t p (m_deadline m) with Some d => now' <? d | None => false end
-                                 | _ => false end) (st_ctl st) in
+                                 | _ => false end) (st_ctl st ++ st_retried st) in
   (* deadlines established in this step *)
   let dl1 := fold_left (fun acc c => match c with
                                      | CPrune p t bo =>
@@ -115,7 +123,45 @@ Definition mon_step (P : params) (m : mst) (st : rstep) : option nat * mst :=
                  | OLeave t => srem t (m_joined m)
                  | _ => m_joined m
                  end in
-  (if early then Some 81%nat else None, {| m_now := now'; m_deadline := dl2; m_joined := joined' |}).
+  let conn' := match st_op st with
+               | OAddPeer p _ => sadd p (m_conn m)
+               | ODisconnect p => srem p (m_conn m)
+               | _ => m_conn m
+               end in
+  let px' := match st_op st with
+             | OAddPeer p i => if pi_px i then sadd p (m_px m) else srem p (m_px m)
+             | ODisconnect p => srem p (m_px m)
+             | _ => m_px m
+             end in
+  (* every PRUNE sent to a peer speaking v1.1 or later states the backoff period the node itself applies (the unsubscribe
+     backoff when it leaves the topic, the prune backoff otherwise); a PRUNE to a v1.0 peer states none.  A PRUNE that is
+     a retry of a dropped one may state either period *)
+  let secs := fun z => z / 1000000000 in
+  let states_ok := fun (retry : bool) c =>
+        match c with
+        | CPrune p _ bo =>
+            if memb p (m_px m) then
+              match bo with
+              | Some b => if retry then (b =? secs (pPruneBackoff P)) || (b =? secs (pUnsubBackoff P))
+                          else b =? secs (match st_op st with OLeave _ => pUnsubBackoff P | _ => pPruneBackoff P end)
+              | None => false
+              end
+            else match bo with None => true | Some _ => false end
+        | _ => true
+        end in
+  let bad_prune := negb (forallb (states_ok false) (st_ctl st)) || negb (forallb (states_ok true) (st_retried st)) in
+  let direct' := match st_op st with
+                 | ODirect p true => sadd p (m_direct m)
+                 | ODirect p false => srem p (m_direct m)
+                 | _ => m_direct m
+                 end in
+  (* a GRAFT and a PRUNE for the same peer and topic produced by one operation: whichever came first, the GRAFT is inside the
+     backoff the PRUNE starts, or the PRUNE throws out a peer grafted in the same breath *)
+  let both := existsb (fun c => match c with
+                                | CGraft p t => existsb (fun d => match d with CPrune q u _ => Nat.eqb p q && Nat.eqb t u | _ => false end) (st_ctl st)
+                                | _ => false end) (st_ctl st) in
+  (if early then Some 81%nat else if both then Some 84%nat else if bad_prune then Some 83%nat else None,
+   {| m_now := now'; m_deadline := dl2; m_joined := joined'; m_conn := conn'; m_px := px'; m_direct := direct' |}).
 
 (* C07 on the snapshot: a mesh exists exactly for joined topics, fanout only for topics not joined;
    after a heartbeat no mesh member has a negative score *)
@@ -123,6 +169,11 @@ Definition mon_c07 (m' : mst) (st : rstep) : option nat :=
   let sn := st_snap st in
   if negb (seteq (map fst (sn_mesh sn)) (m_joined m')) then Some 71%nat
   else if existsb (fun e => memb (fst e) (m_joined m')) (sn_fanout sn) then Some 72%nat
+  (* mesh members are currently connected peers *)
+  else if existsb (fun e => existsb (fun p => negb (memb p (m_conn m'))) (snd e)) (sn_mesh sn) then Some 78%nat
+  (* no direct peer is a mesh member, and none is sent a GRAFT *)
+  else if existsb (fun e => existsb (fun p => memb p (m_direct m')) (snd e)) (sn_mesh sn)
+          || existsb (fun c => match c with CGraft p _ => memb p (m_direct m') | _ => false end) (st_ctl st ++ st_retried st) then Some 70%nat
   else match st_op st with
        | OHeartbeat obs _ =>
            if existsb (fun e => existsb (fun p => score_of (st_scores st) p <? 0) (snd e)) (sn_mesh sn) then Some 73%nat
@@ -135,6 +186,14 @@ Definition mon_c07 (m' : mst) (st : rstep) : option nat :=
                                               | None => false
                                               end
                                        | _ => false end) (snd e)) obs then Some 74%nat
+           (* every peer the heartbeat adds on its own initiative is sent GRAFT, every still-connected peer it removes is sent PRUNE
+              (sent = queued for the wire, or kept for a retry because the queue was full) *)
+           else if existsb (fun e =>
+                     existsb (fun h => match h with
+                                       | HGraft p => negb (existsb (fun c => match c with CGraft q t => Nat.eqb q p && Nat.eqb t (fst e) | _ => false end) (st_ctl st))
+                                       | HPrune p => memb p (m_conn m')
+                                                     && negb (existsb (fun c => match c with CPrune q t _ => Nat.eqb q p && Nat.eqb t (fst e) | _ => false end) (st_ctl st))
+                                       end) (snd e)) obs then Some 79%nat
            else None
        | _ => None
        end.
@@ -224,6 +283,6 @@ Fixpoint exec (P : params) (s : rstate) (m : mst) (l : list rstep) (idx : nat) :
 
 Definition check_rcase_for (c : rcase) : verdict :=
   if negb (valid_params (rc_params c)) then VMismatch 0 99
-  else exec (rc_params c) init {| m_now := 0; m_deadline := []; m_joined := [] |} (rc_steps c) 0.
+  else exec (rc_params c) init {| m_now := 0; m_deadline := []; m_joined := []; m_conn := []; m_px := []; m_direct := [] |} (rc_steps c) 0.
 End ForProperty.
 Definition check_rcase := check_rcase_for 0.
